@@ -188,6 +188,8 @@ structure G0 (T : PTables) (nroot : Nat) (st : PState) : Prop where
   /-- one rotation record per language, with non-empty collections -/
   rots : (∀ l ∈ T.langs, (rotOf st l.code).isSome = true) ∧
          (∀ r ∈ st.rots, r.inl ≠ [] ∧ r.disp ≠ [] ∧ r.chg ≠ [])
+  /-- C19: the list of unknown macros / environments never holds a name twice -/
+  unk : st.unknowns.Nodup
 
 /-- `G nroot st`: `G0`, the root frame (`nest = 1`) parses the root document, and we are
     inside some `parser_work` frame -/
